@@ -159,7 +159,7 @@ def judge_case(record):
 
 COMMENT_BODIES = ["source: experiments/checkout_button.pyab", "x.pyab", ".pyab", "file.py", "/etc/passwd", "-*- coding: latin-1 -*-",
                   "vim: set ft=pyab:", "noqa", "fmt: off", "fmt: skip", "type: ignore", "#!/usr/bin/env pyab", "TODO(me): fix", "@author x",
-                  "%s %d {0} {uid}", "\\", "\\n", "C:\\path\\t.pyab", "pragma: no cover", "<<<<<<< HEAD", "=======", "-----",
+                  "%s %d {0} {uid}", "\\", "\\n", "C:\\path\\t.pyab", "pragma: no cover", "<<<<<<< HEAD", "=======", "-----", ">>>>>>> theirs", "||||||| base", "=========================", "<<<<<<<<<<", "#######", "~~~~~~~", "+++++++", "@@ -1,3 +1,4 @@",
                   'return "Z" weighted 100', "}", "{", "} }", "def other {", "salt: 'x'", "splitters: a", "'", '"', "'''", '"""', "é日本",
                   "\t", "", " ", "*", "**", "/", "//", "///", "\\*", "*\\/", "#", "# python", ";", "-- sql", "<!-- x -->", "\x00", "\x7f", "\ufeff",
                   "x" * 3000]
@@ -185,6 +185,9 @@ def fixed_cases():
                     (" ".join(toks[:-1]) + line + "\n" + toks[-1], ["line-comment"])]
         if "*/" not in body and "/*" not in body and not body.endswith("*") and not body.startswith("/"):
             blk = "/*" + body + "*/"
+            own = "/*\n" + body + "\n" + body + "\n*/"  # the body on lines of its own (an underline ======= , a conflict marker, a banner)
+            variants += [(own + "\n" + base, ["block-comment", "block-comment-multiline", "trivia-before-first-token"]),
+                         (" ".join(toks[:9]) + "\n" + own + "\n" + " ".join(toks[9:]), ["block-comment", "block-comment-multiline"])]
             variants += [(blk + base, ["block-comment", "trivia-before-first-token"]), (base + blk, ["block-comment", "trivia-after-last-token"]),
                          (base + "\n" + blk + "\n", ["block-comment", "trivia-after-last-token"]),
                          (" ".join(toks[:9]) + blk + " ".join(toks[9:]), ["block-comment"])]
